@@ -22,7 +22,7 @@ VALUES_SMALL = [1, -1, 256, 2**16 - 1, 2**32 + 5, ('lab', 'L'), ('chr', 'z')]
 # (source text inside a double-quoted string, inside a single-quoted string, byte)
 CHARS = [
     ('a', 'a', 0x61), (' ', ' ', 0x20), (',', ',', 0x2C), (';', ';', 0x3B), ('\\n', '\\n', 0x0A), ('\\x41', '\\x41', 0x41),
-    ('\\\\', '\\\\', 0x5C), ('\\"', "\\'", None), ("'", '"', None), ('Z', 'Z', 0x5A),
+    ('\\\\', '\\\\', 0x5C), ('\\"', "\\'", None), ("'", '"', None), ('\\xe9', '\\xe9', 0xE9),       # an escape for a value above 0x7F is one byte too
 ]
 TERMINATORS = [None, 3, 0xFF]
 
